@@ -1041,6 +1041,18 @@ std::string Generator::GeneratorImpl::generateOperatorCode(const std::string &op
                 astRightChildCode = "(" + astRightChildCode + ")";
             }
         }
+    } else if (isRelationalOperator(ast)) {
+        if (isRelationalOperator(astLeftChild)
+            || isLogicalOperator(astLeftChild)
+            || isPiecewiseStatement(astLeftChild)) {
+            astLeftChildCode = "(" + astLeftChildCode + ")";
+        }
+
+        if (isRelationalOperator(astRightChild)
+            || isLogicalOperator(astRightChild)
+            || isPiecewiseStatement(astRightChild)) {
+            astRightChildCode = "(" + astRightChildCode + ")";
+        }
     } else if (isAndOperator(ast)) {
         // Note: according to the precedence rules above, we only need to
         //       add parentheses around OR and PIECEWISE. However, it looks
